@@ -63,37 +63,93 @@ Theorem C10_legacy_registration_overincluded :
 Proof. exact legacy_registration_overincluded. Qed.
 Print Assumptions C10_legacy_registration_overincluded.
 
-(* The vkey witnesses build_and_sign puts into the transaction (b = builder fields, b' = after the
-   auto_required_signers step, body = serialized body, keys = the given signing keys, ordinary or extended):
+(* The vkey witnesses build_and_sign puts into the transaction (b = builder fields as prepared, sel = what build()
+   itself adds: the UTxOs taken by coin selection and the collateral picked by _set_collateral_return, b' = the
+   builder when build() returns: selected inputs, then the auto_required_signers step, then the picked collateral;
+   body = serialized body, keys = the given signing keys, ordinary or extended):
    1. each is (32-byte key of a given signing key k, signature by k of H32(body)), k required or forced;
    2. every ledger-required hash for which a key was given gets a witness (incl. the keys of native scripts
-      supplied through reference UTxOs; side condition refs_registered);
-   3. when forced, every given key gets one;
+      supplied through reference UTxOs, of coin-selected inputs and of builder-picked collateral; side condition
+      refs_registered);
+   3. when forced, every given key gets one — wherever it stands in the list;
    4. when not forced, a witness's key hash is ledger-required (or the legacy-registration over-inclusion;
       side condition refs_used);
-   5. no two witnesses share a key hash, hence no duplicate [vkey, signature] entries. *)
+   5. no two witnesses share a key hash, hence no duplicate [vkey, signature] entries.
+   Changed with the selection extension: the statement is now for every [sel] (with sel = no_selection it is the
+   former one: C10_after_build_no_selection); the side conditions are stated on b' (the builder the transaction is
+   emitted from) instead of b — they carry over from b by C10_selection_side_conditions; Plutus scripts take part in
+   the auto_required_signers step (is_smart / has_scripts). *)
 Theorem C10_witnesses :
   forall (SH : nscript -> bytes) (H28 H32 ord_pub : bytes -> bytes) (ord_sign : bytes -> bytes -> bytes)
          (ext_sign : bytes -> bytes -> bytes -> bytes)
-         (b : bdesc) (auto : option bool) (force : bool) (keys : list skey) (body : bytes),
+         (b : bdesc) (auto : option bool) (force : bool) (keys : list skey) (sel : selection) (body : bytes),
   Forall wf_key keys ->
-  let b' := after_auto SH H28 ord_pub auto keys b in
+  let b' := after_build SH H28 ord_pub auto keys sel b in
   let txid := H32 body in
-  let ws := build_and_sign_witnesses SH H28 H32 ord_pub ord_sign ext_sign b auto force keys body in
+  let ws := build_and_sign_witnesses SH H28 H32 ord_pub ord_sign ext_sign b auto force keys sel body in
   (forall w, In w ws -> exists k, In k keys /\ w_vk w = vk32 ord_pub k /\ w_sig w = sign_with ord_sign ext_sign k txid
                                   /\ (force = true \/ In (key_hash H28 ord_pub k) (builder_required b')))
-  /\ (refs_registered SH b ->
+  /\ (refs_registered SH b' ->
       forall kh, In kh (Ledger.required_key_hashes SH (tx_of SH b')) -> (exists k, In k keys /\ key_hash H28 ord_pub k = kh) ->
         exists w, In w ws /\ H28 (w_vk w) = kh)
   /\ (force = true -> forall k, In k keys -> exists w, In w ws /\ H28 (w_vk w) = key_hash H28 ord_pub k)
-  /\ (refs_used SH b -> force = false -> forall w, In w ws ->
+  /\ (refs_used SH b' -> force = false -> forall w, In w ws ->
         In (H28 (w_vk w)) (Ledger.required_key_hashes SH (tx_of SH b')) \/ In (H28 (w_vk w)) (legacy_registration_keys b'))
   /\ NoDup (map (fun w => H28 (w_vk w)) ws)
   /\ NoDup (map wit_bytes ws).
 Proof. exact build_and_sign_spec. Qed.
 Print Assumptions C10_witnesses.
 
-(* Placeholder witnesses used for the fee: as many as there are distinct required key hashes (no witness_override),
+(* without selection the builder after build() is the builder after the auto_required_signers step *)
+Theorem C10_after_build_no_selection :
+  forall (SH : nscript -> bytes) (H28 ord_pub : bytes -> bytes) (auto : option bool) (keys : list skey) (b : bdesc),
+  after_build SH H28 ord_pub auto keys no_selection b = after_auto SH H28 ord_pub auto keys b.
+Proof. exact after_build_no_selection. Qed.
+Print Assumptions C10_after_build_no_selection.
+
+(* the side conditions on reference scripts carry over from the prepared builder to the builder after build():
+   refs_used always; refs_registered when coin selection added key-locked UTxOs only *)
+Theorem C10_selection_side_conditions :
+  forall (SH : nscript -> bytes) (H28 ord_pub : bytes -> bytes) (auto : option bool) (keys : list skey)
+         (sel : selection) (b : bdesc),
+  (refs_used SH b -> refs_used SH (after_build SH H28 ord_pub auto keys sel b))
+  /\ (forallb is_key (sel_inputs sel) = true -> refs_registered SH b ->
+        refs_registered SH (after_build SH H28 ord_pub auto keys sel b)).
+Proof. intros SH H28 ord_pub auto keys sel b. split; [apply refs_used_after_build | apply refs_registered_after_build]. Qed.
+Print Assumptions C10_selection_side_conditions.
+
+(* The placeholder witnesses of the LAST fee estimate of build() (fee_witness_count: _witness_count() on the builder
+   with the selected inputs and the picked collateral in place; no witness_override): as many as the builder then has
+   distinct required key hashes, 32 + 64 bytes, pairwise distinct; the key of every key-locked UTxO that build() added
+   as input or as collateral is among them; and — side conditions, no legacy registration — that number IS the number
+   of distinct key hashes the ledger requires for the emitted transaction. *)
+Theorem C10_fee_placeholders :
+  forall (SH : nscript -> bytes) (H28 ord_pub : bytes -> bytes)
+         (b : bdesc) (auto : option bool) (keys : list skey) (sel : selection),
+  let b' := after_build SH H28 ord_pub auto keys sel b in
+  b_witness_override b = None ->
+  let n := lenN (dedup (builder_required b')) in
+  n <= 256 ->
+  let fw := fake_vkey_witnesses (fee_witness_count SH H28 ord_pub b auto keys sel) in
+  lenN fw = n /\ Forall (fun w => length (fst w) = 32%nat /\ length (snd w) = 64%nat) fw /\ NoDup fw
+  /\ (forall kh, In (KeyH kh) (sel_inputs sel ++ sel_collateral sel) -> In kh (builder_required b'))
+  /\ (refs_registered SH b' -> refs_used SH b' -> legacy_registration_keys b' = [] ->
+        n = lenN (dedup (Ledger.required_key_hashes SH (tx_of SH b')))).
+Proof. exact fee_placeholders. Qed.
+Print Assumptions C10_fee_placeholders.
+
+(* why the count must be taken on the builder as build() leaves it: a Plutus spend whose collateral the builder picks
+   from another key's wallet — counting before _set_collateral_return gives 0, the transaction needs 1 *)
+Theorem C10_count_before_collateral_refuted :
+  let SH := fun _ : nscript => kC in let H28 := fun b : bytes => firstn 1 b in let ord_pub := fun s : bytes => s in
+  picks_collateral b_plutus_example = true
+  /\ witness_count (after_auto SH H28 ord_pub None [] (add_inputs (sel_inputs sel_example) b_plutus_example)) = 0
+  /\ fee_witness_count SH H28 ord_pub b_plutus_example None [] sel_example = 1
+  /\ Ledger.required_key_hashes SH (tx_of SH (after_build SH H28 ord_pub None [] sel_example b_plutus_example)) = [kB].
+Proof. exact stale_count_refuted. Qed.
+Print Assumptions C10_count_before_collateral_refuted.
+
+(* Placeholder witnesses of any builder state: as many as there are distinct required key hashes (no witness_override),
    each a 32-byte key and a 64-byte signature, pairwise distinct as [vkey, signature] entries (so the ordered set
    keeps them all).  The bound 256 is where the construction (index AND constant) starts to repeat: C10_fake_257. *)
 Theorem C10_fake_count : forall b : bdesc,
@@ -150,9 +206,9 @@ Theorem C10_witnesses_valid :
   forall (SH : nscript -> bytes) (H28 H32 ord_pub : bytes -> bytes) (ord_sign : bytes -> bytes -> bytes),
   (forall seed, length (ord_pub seed) = 32%nat) ->
   (forall seed m, length seed = 32%nat -> ed_verify G zero add smulB dec_pt H512 (ord_pub seed) m (ord_sign seed m)) ->
-  forall (b : bdesc) (auto : option bool) (force : bool) (keys : list skey) (body : bytes),
+  forall (b : bdesc) (auto : option bool) (force : bool) (keys : list skey) (sel : selection) (body : bytes),
   Forall (wf_skey G smulB enc_pt) keys ->
-  forall w, In w (build_and_sign_witnesses SH H28 H32 ord_pub ord_sign (ext_sign_model G smulB enc_pt H512) b auto force keys body) ->
+  forall w, In w (build_and_sign_witnesses SH H28 H32 ord_pub ord_sign (ext_sign_model G smulB enc_pt H512) b auto force keys sel body) ->
     length (w_vk w) = 32%nat /\ ed_verify G zero add smulB dec_pt H512 (w_vk w) (H32 body) (w_sig w).
 Proof. exact witnesses_valid. Qed.
 Print Assumptions C10_witnesses_valid.
